@@ -409,6 +409,11 @@ def cases_helpers(L, tier, seed):
                 for b_ in (None, 1, 2, mx, -1):
                     g2 = RI.GetItem('rows-slice', a_ is None, b_ is None, exclude={'ra-2d-slice-empty-row'})
                     yield g2, (lambda self, iis: self[iis]), dict(self=Rg, iis=(np.array(rows_), slice(a_, b_))), ('getitem-rows-slice', lens, rows_, a_, b_)
+        for ra_, rb_ in ((None, None), (0, n), (1, n), (-n, -1) if n > 1 else (0, 1), (0, 1)):
+            for a_ in (None, 0, 1, -1):
+                for b_ in (None, 1, mx, -1):
+                    g3 = RI.GetItem('slice-slice', a_ is None, b_ is None, exclude={'ra-2d-slice-empty-row'}, row_none=(ra_ is None, rb_ is None))
+                    yield g3, (lambda self, iis: self[iis]), dict(self=Rg, iis=(slice(ra_, rb_), slice(a_, b_))), ('getitem-slice-slice', lens, ra_, rb_, a_, b_)
         il, isl = RI.IisFromList(), RI.IisFromSlices(exclude=EXCL | ({'ra-2d-slice-empty-row'} if PROP == 'C06' else set()))
         row_sels = [list(range(n)), [n - 1], [0, 0], list(range(n))[::-1], [n - 1, 0]]
         for rows_ in row_sels:
@@ -418,8 +423,28 @@ def cases_helpers(L, tier, seed):
                 yield il, ram._get_iis_from_list, dict(first_dimension=list(rows_), second_dimension=list(cols_)), ('iis-from-list', rows_, cols_)
 
 
+def cases_setitem(L, tier, seed):
+    """the write method under the contract the prover discharges for it (contracts/ra_setitem.py)"""
+    from contracts import ra_setitem as RS
+    sp = RS.SetItemPaired()
+
+    def write(self, iis, value):
+        self[iis] = value
+    for lens in [(3, 2, 4), (2, 2), (1,), (4, 1, 3)]:
+        lengths = np.array(lens)
+        n, mx = len(lens), max(lens)
+        rs = list(itertools.product(range(-n, n), repeat=2))
+        cs = list(itertools.product(range(-mx - 1, mx + 1), repeat=2))
+        for r in rs[::(2 if tier == 'quick' else 1)]:
+            for c in cs[::(5 if tier == 'quick' else 1)]:
+                Rg = ra.RaggedArray(np.arange(sum(lens)) * 10.0 + 1, lengths=lengths.copy())
+                yield sp, write, dict(self=Rg, iis=(np.array(r), np.array(c)), value=-5.0), ('setitem-paired', lens, r, c)
+
+
 def cases(L, tier, seed):
     yield from cases_helpers(L, tier, seed)
+    if PROP == 'C06':
+        yield from cases_setitem(L, tier, seed)
     if PROP == 'C05':
         yield from cases_reads(L, tier, seed)
     else:
